@@ -10,6 +10,8 @@ import (
 	"flag"
 	"fmt"
 	"os"
+	"runtime/debug"
+	"runtime/pprof"
 	"strings"
 )
 
@@ -30,6 +32,7 @@ func main() {
 		os.Exit(2)
 	}
 	cmd := os.Args[1]
+	debug.SetGCPercent(400)
 	fs := flag.NewFlagSet(cmd, flag.ExitOnError)
 	fs.StringVar(&opt.repo, "repo", "/repo", "repository under test")
 	fs.StringVar(&opt.verif, "verif", "/verif", "verification directory")
@@ -58,8 +61,16 @@ func main() {
 		replay := fs.Bool("replay", false, "replay violations natively")
 		panicsOK := fs.Bool("panics-ok", false, "target panics are not violations")
 		wall := fs.Int("wall", 3600, "wall-clock budget in seconds")
+		prof := fs.String("cpuprofile", "", "write a CPU profile")
 		fs.Parse(os.Args[2:])
-		os.Exit(runDev(splitList(*files), *pkg, *run, *mode, *maxPaths, *fuel, *obligMs, parseParams(*params), *replay, *panicsOK, *wall))
+		if *prof != "" {
+			f, _ := os.Create(*prof)
+			pprof.StartCPUProfile(f)
+			defer pprof.StopCPUProfile()
+		}
+		rc := runDev(splitList(*files), *pkg, *run, *mode, *maxPaths, *fuel, *obligMs, parseParams(*params), *replay, *panicsOK, *wall)
+		pprof.StopCPUProfile()
+		os.Exit(rc)
 	case "replay":
 		file := fs.String("file", "", "replay file")
 		fs.Parse(os.Args[2:])
